@@ -25,6 +25,13 @@ pub(crate) fn stub_attach_source<S: Into<Box<dyn std::error::Error + Send + Sync
     Box::new(this)
 }
 
+/// trait-shaped stub for `ToString::to_string` (error-context values like `id.to_string()`: hex encoding + UTF-8
+/// validation loops); only used in harnesses where no result of to_string() is semantically relevant
+pub(crate) trait ToStringModel {
+    fn to_string(&self) -> String { String::new() }
+}
+impl<T: std::fmt::Display + ?Sized> ToStringModel for T {}
+
 /// stub for `alloc::fmt::format`
 pub(crate) fn stub_format(_a: std::fmt::Arguments<'_>) -> String {
     String::new()
